@@ -6,7 +6,8 @@
  *   coherent stamps    files created / closed-after-writing below NQV_HOME get atime=mtime=vnow
  *   event log          NQV_LOG=<file>     one JSON line per observed call (appended, atomic writes)
  *                      NQV_TRACE=<letters> classes to observe: m mutations, r reads, s select,
- *                                         d directory reads, p process, a alarm, i identity, l locks
+ *                                         d directory reads, p process, a alarm, i identity, l locks,
+ *                                         o read-only opens below the home
  *   fault plan         NQV_PLAN=<prog>:<k>:<action>[;...]  at the k-th counted call (classes in
  *                      NQV_COUNT, default "m") of a process whose program name is <prog> (or *):
  *                      kill | fail=<errno> | short=<n>
@@ -388,6 +389,22 @@ static int open_common(int which, int dirfd, const char *path, int flags, mode_t
   shim_init();
   mut = (flags & (O_CREAT | O_TRUNC)) != 0 || (flags & O_ACCMODE) != O_RDONLY || strstr(path, "lock/trigger") != 0;
   w = inited && mut && watching('m');
+  if (inited && !mut && watching('o') && (path[0] != '/' || (homelen && !strncmp(path, home, homelen)))) {
+    /* class o: read-only opens of files below the home (pass opening, info reads) */
+    int se;
+    ev_begin(&e, "openr"); ev_path(&e, "path", path);
+    pre('o', &e, &d);
+    if (d.act == ACT_FAIL) { errno = d.err; post('o', &e, &d, -1, d.err); return -1; }
+    if (which == 0) { NEED(open); fd = r_open(path, flags, mode); }
+    else if (which == 1) { NEED(open64); fd = r_open64(path, flags, mode); }
+    else { NEED(openat); fd = r_openat(dirfd, path, flags, mode); }
+    se = errno;
+    if (fd >= 0 && fd < 1024) { fdkind[fd] = 0; wropen[fd] = 0; }
+    if (fd >= 0) { struct stat st; if (fstat(fd, &st) == 0) { ev_int(&e, "ino", st.st_ino); ev_int(&e, "mtime", st.st_mtime); } }
+    ev_int(&e, "fd", fd); post('o', &e, &d, fd, se);
+    errno = se;
+    return fd;
+  }
   if (w) {
     ev_begin(&e, "open"); ev_path(&e, "path", path); ev_int(&e, "flags", flags);
     if (flags & O_CREAT) ev_int(&e, "creat", 1);
